@@ -248,18 +248,18 @@ Proof.
         -- rewrite Hstep. reflexivity.
 Qed.
 
-Lemma url_shape_lemma :
+End Shape.
+
+Lemma url_shape_lemma kind rx fconv p_all names args kw :
   lits_ok p_all = true ->
   url_of_pat kind rx fconv p_all names args kw = url_spec kind rx fconv kw p_all names args.
 Proof.
   intros Hok. unfold url_of_pat, url, url_spec.
   destruct names as [|n0 names0] eqn:En; [reflexivity|].
   rewrite <- En.
-  pose proof (loop_spec p_all [] [] [] [] 0 eq_refl Hok eq_refl) as H.
-  simpl in H. unfold loop, po, filters in H. rewrite H. reflexivity.
+  pose proof (loop_spec kind rx fconv p_all names args kw p_all [] [] [] [] 0 eq_refl Hok eq_refl) as H.
+  simpl in H. rewrite H. reflexivity.
 Qed.
-
-End Shape.
 
 (* ---- the Ok shape: literals verbatim and in order, one text per wildcard ---- *)
 
@@ -268,6 +268,27 @@ Variable kind : fid -> fkind.
 Variable rx : fid -> str -> option nat.
 Variable fconv : str -> str.
 Variable kw : list (str * pyval).
+
+Lemma fetch_err n args e u : fetch kw n args = inl e -> e <> UOk u.
+Proof.
+  unfold fetch. destruct (is_anon n).
+  - destruct args; intros [= <-]; discriminate.
+  - destruct (kw_get kw n); intros [= <-]; discriminate.
+Qed.
+
+Lemma format_err f v e u : format kind f v = inl e -> e <> UOk u.
+Proof.
+  unfold format. destruct f as [k|]; [|discriminate].
+  destruct (f_out_of (kind k)); [|discriminate].
+  destruct (apply_fmt f v); intros [= <-]; discriminate.
+Qed.
+
+Lemma check_err f prt la e u : check kind rx fconv f prt la = Some e -> e <> UOk u.
+Proof.
+  unfold check, validate. destruct f as [k|]; [|discriminate].
+  destruct prt; try (intros [= <-]; discriminate).
+  destruct (handler kind rx fconv k (s ++ la)) as [[v [|n]]|]; intros [= <-]; discriminate.
+Qed.
 
 Lemma spec_go_fill p :
   forall names args acc u,
@@ -281,9 +302,9 @@ Proof.
     destruct acc as [t0|]; simpl in Hacc; [|discriminate]. injection Hacc as <-.
     exists t0, texts. simpl. now rewrite app_assoc.
   - destruct names as [|n names']; [discriminate|].
-    destruct (fetch kw n args) as [e|[v args']]; [destruct e; discriminate|].
-    destruct (format kind f v) as [e|prt]; [destruct e; discriminate|].
-    destruct (check kind rx fconv f prt (next_lit p)) as [e|]; [destruct e; discriminate|].
+    destruct (fetch kw n args) as [e|[v args']] eqn:E1; [exfalso; subst e; eapply fetch_err; eauto|].
+    destruct (format kind f v) as [e|prt] eqn:E2; [exfalso; subst e; eapply format_err; eauto|].
+    destruct (check kind rx fconv f prt (next_lit p)) as [e|] eqn:E3; [exfalso; subst e; eapply check_err; eauto|].
     apply IH in H. destruct H as [t [texts [Hacc [Hl ->]]]].
     destruct acc as [t0|]; [|discriminate].
     destruct prt as [s|z|r]; simpl in Hacc; try discriminate. injection Hacc as <-.
